@@ -46,7 +46,7 @@ func main() {
 			opts.Timeout, opts.All = 120, true
 		} else {
 			opts.Tier = "quick"
-			opts.Timeout = 45 // most obligations answer in < 1 s; the slowest claimed ones take ~13 s on a loaded machine
+			opts.Timeout = 60 // most obligations answer in < 1 s; the slowest claimed one takes ~15 s (30 s on a loaded machine)
 		}
 		if *timeout > 0 {
 			opts.Timeout = *timeout
